@@ -369,6 +369,11 @@ def gen_views(tier, rng):
             r = rng.choice(d.records)
             y, m_, dd_ = r.ymd
             r.ymd = (min(9999, y + rng.randint(28, 120)), m_, min(dd_, 28))
+        if len(d.records) >= 2 and rng.random() < 0.03:
+            # the first days of the calendar belong to week 52 of the week-year -1; the last week of year 0 is another week 52
+            a, b = rng.sample(range(len(d.records)), 2)
+            d.records[a].ymd = (0, 1, rng.choice([1, 2]))
+            d.records[b].ymd = (0, 12, rng.choice([25, 28, 31]))
         now = pick_now(rng, d)
         text = d.render().hex() or "-"
         span = span_days(d)
@@ -543,7 +548,7 @@ def nontrivial(req, out):
 
 # ------------------------------------------------------------------ known findings
 
-def k12_week_year_label(req, out):
+def k12_week_year_label(req, out, model_out=None):
     """`klog report --aggregate week` whose first row lies in ISO year -1 (records dated 0000-01-01 / 0000-01-02):
     weekAggregator starts from the sentinel year -1, so the first row is printed without its year."""
     f = req.split(" ")
@@ -551,7 +556,10 @@ def k12_week_year_label(req, out):
         return False
     _, secs = split_sections(out)
     R = secs.get("R", [])
-    return len(R) >= 2 and R[1].startswith("?-52=") and not any(t.startswith("?") for t in R[2:])
+    # recognised only while klog's answer is the model's up to that missing label (anything else that happens to these rows
+    # is a different violation)
+    return len(R) >= 2 and R[1].startswith("?-52=") and not any(t.startswith("?") for t in R[2:]) \
+        and (model_out is None or model_out.replace(" ?-52=", " -1-52=") == out.replace(" ?-52=", " -1-52="))
 
 def file_overflows(req):
     """the durations written in the file add up beyond int64"""
